@@ -422,7 +422,9 @@ def C13():
         "C13", units=[ContractUnit(u) for u in UNITS] + [ContractUnit(ApplyDataPostProcessing(), variants=["group_by"])] + LEMMAS, level="proof",
         technique="Kleene-semantics model of the polars expression fragment; whole-frame postconditions on the real _suppress_single_column / "
                   "_suppress_hierarchical_columns (2 and 3 levels) / restore_page_context (loop invariant over page starts) / validate_data_sorting "
-                  "(seen-set invariant, exceptional postcondition) + contiguity lemma",
+                  "(seen-set invariant, exceptional postcondition) + contiguity lemma; enhance_group_by (the dispatcher): order validated for exactly these "
+                  "keys before any suppression, one key -> single-column suppressor with that key, more -> hierarchical suppressor with all keys, on a "
+                  "value-equal copy of the frame",
         trusted_base=[SOLVERS, ENGINE, "polars expression semantics as modelled in pyvc/libmodels/polars_expr.py (Kleene nulls, shift, when/then/otherwise, "
                       "with_columns evaluating pl.col on its receiver); null is a single value"],
         assumptions=["the deeper levels of validate_data_sorting (composite string key; injectivity precondition) are not yet under contract in this check; "
